@@ -49,6 +49,14 @@ Theorem C36_prop_of_model : forall ops, prop_C36 (enc_ops ops) (run_C36 (enc_ops
 Proof. exact prop_C36_of_model. Qed.
 Print Assumptions C36_prop_of_model.
 
+(* Serve-loop entry points: for every script of HEADERS frames opening streams (with or without the PRIORITY flag,
+   any dependency incl. the stream itself, unknown or closed streams, exclusive or not), PRIORITY frames and
+   RST_STREAMs, the model (processHeaders = create stream, then adjustStreamPriority if flagged; processPriority =
+   adjustStreamPriority; reset = delete from the map) yields one acyclic table per frame: nothing hangs. *)
+Theorem C36_prop_of_model_live : forall lops, prop_C36 (enc_live lops) (run_C36 (enc_live lops)) = true.
+Proof. exact prop_C36_of_model_live. Qed.
+Print Assumptions C36_prop_of_model_live.
+
 (* Non-vacuity: a history that re-parents stream 1 under its grandchild 5 (5 moves to the root first), closes 3
    and then makes 5 exclusive child of the root; the (id,parent) tables after every step. *)
 Example C36_example_history :
